@@ -113,13 +113,16 @@ pub fn snapshot_json(name: &str, v: Value) -> J {
 }
 
 pub fn globals() -> Globals {
+    globals_builder().build()
+}
+
+pub fn globals_builder() -> GlobalsBuilder {
     use starlark::environment::LibraryExtension::*;
     GlobalsBuilder::extended_by(&[
         StructType, RecordType, EnumType, NamespaceType, Map, Filter, Partial, Debug, Print, Pprint,
         Pstr, Prepr, Json, Typing, Internal, CallStack, SetType,
     ])
     .with(natives::harness_natives)
-    .build()
 }
 
 struct Printer;
@@ -373,6 +376,9 @@ pub fn run_case(case: &J) -> Vec<J> {
                         }
                     }
                 }
+            }
+            if let Some(x) = module.extra_value() {
+                log(json!(["extra", canon::encode(x, cfg.sharing)]));
             }
             // Pre-freeze snapshots of requested names.
             let snap_names: Vec<String> = match unit.get("snapshot") {
